@@ -4,6 +4,7 @@ import (
 	"encoding/json"
 	"fmt"
 	"math/rand"
+	"regexp"
 	"sort"
 	"strings"
 	"sync"
@@ -19,6 +20,9 @@ type sentCase struct {
 	P   []string `json:"p"`
 	Ext []int    `json:"ext"`
 }
+
+// an empty quoted attribute name in the source text (classification of findings only)
+var emptyNameRe = regexp.MustCompile(`attributes\s*[:.]\s*""`)
 
 var tokSeq = []string{"attributes", ":", ".", "Ident", "String", "=", "!=", "hasPrefix", "(", ")", ",", "AND", "OR", "NOT", "-"}
 
@@ -180,10 +184,8 @@ func (c *c08ctx) roundTrip(s string, p parsed, names, vals []string, rng *rand.R
 	}
 	if p2.Err != nil {
 		d := "printed-form-does-not-parse"
-		for _, n := range names {
-			if n == "" {
-				d = "printed-form-does-not-parse:empty-attribute-name"
-			}
+		if emptyNameRe.MatchString(s) {
+			d = "printed-form-does-not-parse:empty-attribute-name"
 		}
 		res.add(violation{Clause: pre, Detail: d, Msg: fmt.Sprintf("%q parses, its printed form %q does not: %v", s, s2, p2.Err), Replay: rp})
 		return
@@ -257,15 +259,34 @@ func (c *c08ctx) checkTokenString(kinds []string, acc int, idx int64, sub int) {
 		c.res.count("token_strings_duplicate", 1)
 		return
 	}
-	c.res.seen(h, len(kinds) >= 2)
-	if acc == 1 {
-		c.res.count("token_strings_accepted", 1)
-	} else {
-		c.res.count("token_strings_rejected", 1)
+	c.res.count("distinct_cases", 1)
+	if len(kinds) >= 2 {
+		c.res.count("distinct_nontrivial", 1)
 	}
 	rng := rand.New(rand.NewSource(c.seed*1000003 + int64(h%1000000007)))
 	canon := lexTokens(kinds, "canon", nil)
 	s0 := joinToks(canon, 0, nil)
+	switch acc {
+	case 1:
+		c.res.count("token_strings_accepted", 1)
+	case 0:
+		c.res.count("token_strings_rejected", 1)
+	default:
+		// unsettled by the documentation (a keyword-spelled word where a name is
+		// expected): totality and round trip only
+		c.res.count("token_strings_unsettled", 1)
+		c.res.count("strings_parsed", 1)
+		p := safeParse(s0)
+		if p.Out.bad() {
+			c.res.add(violation{Clause: "C08:total", Detail: "parse-" + kindOf(p.Out), Msg: fmt.Sprintf("ParseString(%q): %s", s0, p.Out),
+				Replay: map[string]any{"kind": "fuzz", "string": s0}})
+		} else if p.Err == nil {
+			c.res.count("token_strings_unsettled_parsed", 1)
+			names, vals := tokTexts(canon)
+			c.roundTrip(s0, p, append(names, "AND", "OR", "NOT"), vals, rng, false)
+		}
+		return
+	}
 	c.checkString(s0, acc, canon, "canon", rng)
 	prio := hash64([]byte(fmt.Sprintf("%d/%s", c.seed, key)))
 	if acc == 1 {
